@@ -153,6 +153,13 @@ class C02(Campaign):
                          p_multi_event=0.4, p_unknown_event=0.05, p_multi_group_name=0.3,
                          p_attach_style=0.35, p_awaitable=0.2, p_prop_guard=0.15, p_from_any=0.15, p_event_obj=0.15, p_event_decl=0.15, p_decl_style=0.2, p_or_group=0.15, p_devent=0.15, p_multi_source=0.15, p_guard_any_value=0.25)
 
+    def scenario(self, rnd, tier):
+        sc = super().scenario(rnd, tier)
+        prog = sc["programs"][0]
+        if prog["model"].get("kind", "attr") == "attr" and rnd.random() < 0.15:
+            prog["model"]["kind"] = "libmodel"  # the user's model class extends statemachine.model.Model
+        return sc
+
     def nontrivial(self, sc, ev):
         groups = 0
         seen = {}
@@ -196,7 +203,7 @@ class C14(Campaign):
         return gen.knobs(async_modes=ASYNC_MODES, drivers=["sync", "inloop"], p_action=0.6, p_ret=0.7,
                          p_conv=0.4, p_internal=0.2, p_self=0.2, p_multi_event=0.4,
                          allow=[False, True, True], p_unknown_event=0.1, senders=(0, 2), sends_per=(1, 2),
-                         sends_jlt=(1, 2), p_attach_style=0.35)
+                         sends_jlt=(1, 2), p_attach_style=0.35, p_multi_group_name=0.3)
 
     def scenario(self, rnd, tier):
         if rnd.random() < 0.2:
